@@ -42,12 +42,17 @@ func bind(r *annotations.HttpRule, adds ...*annotations.HttpRule) *annotations.H
 //	SS(Chunk) stream Chunk            POST /px/ss   | GET /px/ss/{id} | WEBSOCKET /px/wss/{id}
 //	CS(stream Chunk) Chunk            POST /px/cs   | WEBSOCKET /px/wsc/{id}
 //	Bidi(stream Chunk) stream Chunk   POST /px/bidi | WEBSOCKET /px/ws/{id}
+//	Upload(stream Upload) Rsp         POST /px/upload/{name} body:file (google.api.HttpBody)
+//	Download(Req) stream HttpBody     GET /px/download/{a}
 func pxService() (protoreflect.ServiceDescriptor, error) {
 	f := &vschema.File{Path: "vf/px.proto", Pkg: "vf.px", Services: []vschema.Service{{Name: "Std", Methods: []vschema.Method{
 		{Name: "Echo", In: "vf.Chunk", Out: "vf.Chunk", Rule: bind(hpost("/px/echo"), hget("/px/echo/{id}"))},
 		{Name: "SS", In: "vf.Chunk", Out: "vf.Chunk", SS: true, Rule: bind(hpost("/px/ss"), hget("/px/ss/{id}"), hws("/px/wss/{id}"))},
 		{Name: "CS", In: "vf.Chunk", Out: "vf.Chunk", CS: true, Rule: bind(hpost("/px/cs"), hws("/px/wsc/{id}"))},
 		{Name: "Bidi", In: "vf.Chunk", Out: "vf.Chunk", CS: true, SS: true, Rule: bind(hpost("/px/bidi"), hws("/px/ws/{id}"))},
+		// google.api.HttpBody transfers (body.go)
+		{Name: "Upload", In: "vf.Upload", Out: "vf.Rsp", CS: true, Rule: &annotations.HttpRule{Pattern: &annotations.HttpRule_Post{Post: "/px/upload/{name}"}, Body: "file"}},
+		{Name: "Download", In: "vf.Req", Out: "google.api.HttpBody", SS: true, Rule: hget("/px/download/{a}")},
 	}}}}
 	fd, err := f.Build()
 	if err != nil {
